@@ -332,6 +332,10 @@ pub fn replay(name: &str, case: &Value) -> Option<Verdict> {
     match name {
         "cli_fault_sequences" => Some(replay_case::<FaultCase, _>(case, check_fault).unwrap_or_else(Verdict::Fail)),
         "mcp_figures" => Some(replay_case::<crate::props::c17::Case, _>(case, check_c17_mcp).unwrap_or_else(Verdict::Fail)),
+        "front_ends" => Some(replay_case::<crate::props::c05::Case, _>(case, check_c05_front).unwrap_or_else(Verdict::Fail)),
+        "cli_several_files" => Some(replay_case::<crate::props::c06::Case, _>(case, check_c06_cli).unwrap_or_else(Verdict::Fail)),
+        "cli_year_and_overrides" => Some(replay_case::<FrontCase, _>(case, check_c07_cli).unwrap_or_else(Verdict::Fail)),
+        "cli_json_through_mcp" => Some(replay_case::<FrontCase, _>(case, check_c14_mcp).unwrap_or_else(Verdict::Fail)),
         "cli_fx_folder" => Some(replay_case::<crate::props::c08::Case, _>(case, check_c08_cli).unwrap_or_else(Verdict::Fail)),
         _ => None,
     }
@@ -597,4 +601,410 @@ fn strat_c17_mcp(t: Tier) -> BoxedStrategy<crate::props::c17::Case> {
 pub fn c17_mcp(ctx: &Ctx) -> bool {
     ctx.shrink_iters.store(60, std::sync::atomic::Ordering::Relaxed);
     ctx.run_prop("mcp_figures", RULE_C17_MCP, ctx.cases(4, 400), strat_c17_mcp, check_c17_mcp)
+}
+
+// ---------------------------------------------------------------------------------------------
+// Front-end strata for C04 / C05 / C06 / C07 / C14 (real binary, MCP server)
+// ---------------------------------------------------------------------------------------------
+
+#[derive(Clone, Debug, Serialize, Deserialize)]
+pub struct FrontCase {
+    pub gl: GenLedger,
+    pub sel: u16,
+}
+
+fn strat_front(t: Tier) -> BoxedStrategy<FrontCase> {
+    (lgen::ledger_strategy(embedded_cfg(t)), any::<u16>()).prop_map(|(gl, sel)| FrontCase { gl, sel }).boxed()
+}
+
+fn json_minus_tx(o: &CliOut) -> Result<Value, String> {
+    let mut v: Value = serde_json::from_slice(&o.stdout).map_err(|e| format!("stdout is not JSON: {e}; {}", o.describe()))?;
+    if let Some(m) = v.as_object_mut() {
+        m.remove("transactions");
+    }
+    Ok(v)
+}
+
+fn mcp_one(tool: &str, args: Value) -> Result<Result<String, String>, String> {
+    use std::time::Duration;
+    let mut m = crate::proc::Mcp::start(false);
+    if !m.handshake() {
+        proc::inconclusive("MCP handshake failed");
+    }
+    m.send(&crate::proc::tool_call(1, tool, args));
+    let resp = m.recv(Duration::from_secs(60)).ok_or_else(|| format!("{tool}: request not answered"))?;
+    let r = crate::proc::tool_text(&resp);
+    let (code, _) = m.close(Duration::from_secs(20));
+    if code != Some(0) {
+        return Err(format!("MCP server exit status {code:?}"));
+    }
+    Ok(r)
+}
+
+// ----- C05: no report, partial or otherwise, from any front-end when a sale is uncovered -----
+
+const RULE_C05_FRONT: &str = "process level: accepted ledgers and broken variants (C05 mutations) through `cgt-tool report` in plain/json/pdf with and without --output, and through MCP calculate_report; covered => success with output; uncovered => non-zero exit, empty stdout, no --output file, error naming security and ISO date, MCP error response; non-trivial = the ledger is uncovered; distinct by DSL hash";
+
+pub fn check_c05_front(c: &crate::props::c05::Case, obs: &mut Obs) -> Verdict {
+    let ledger = crate::props::c05::mutate(c);
+    if lgen::has_excluded_placement(&ledger) {
+        obs.excluded += 1;
+        return Verdict::Pass;
+    }
+    let dsl = crate::led::to_dsl(&ledger) + "\n";
+    obs.hash = crate::led::hash_str(&dsl);
+    let Ok(m) = crate::model::evaluate(&ledger, &crate::model::NoFx, crate::model::Quirks::default()) else { return Verdict::Pass };
+    let covered = m.covered();
+    obs.nontrivial = !covered;
+    obs.class(if covered { "covered" } else { "uncovered" });
+    // library verdict (C05 proper judges it; here the front-ends must follow it)
+    let lib_ok = matches!(crate::tool::calc_with(&ledger, None, Some(crate::props::c15::fx()), &cgt_core::Config::embedded().unwrap_or_default()), crate::tool::Outcome::Ok(_));
+    if lib_ok != covered {
+        obs.class("library_verdict_differs_from_model");
+        return Verdict::Pass;
+    }
+    let uncovered: Vec<(String, String)> = m.secs.iter().flat_map(|(k, s)| s.uncovered.iter().map(move |(d, _)| (k.clone(), d.to_string()))).collect();
+    if obs.sample.is_none() && !covered {
+        obs.sample = Some(crate::tool::sample_of(&ledger));
+    }
+    let sc = Scratch::new("c05f");
+    let input = sc.write("in.cgt", &dsl).to_string_lossy().to_string();
+    for (fi, fmt) in ["plain", "json", "pdf"].iter().enumerate() {
+        let with_output = (c.idx as usize + fi) % 2 == 0 || *fmt == "pdf";
+        let out_path = sc.path(&format!("out.{fmt}"));
+        let out_s = out_path.to_string_lossy().to_string();
+        let mut args = vec!["report", input.as_str(), "--format", fmt];
+        if with_output {
+            args.push("--output");
+            args.push(&out_s);
+        }
+        let o = proc::run_cli(&sc, &args);
+        if o.signal.is_some() || !matches!(o.code, Some(0) | Some(1) | Some(2)) {
+            return Verdict::fail(format!("{fmt}: abnormal exit {}", o.describe()));
+        }
+        if covered {
+            if !o.ok() {
+                return Verdict::fail(format!("{fmt}: covered ledger refused by the CLI: {}\n{dsl}", o.describe()));
+            }
+            let produced = if with_output { std::fs::read(&out_path).map(|b| !b.is_empty()).unwrap_or(false) } else { !o.stdout.is_empty() };
+            if !produced {
+                return Verdict::fail(format!("{fmt}: success but no report produced"));
+            }
+        } else {
+            if o.ok() {
+                return Verdict::fail(format!("{fmt}: uncovered ledger produced a report\n{dsl}"));
+            }
+            if !o.stdout.is_empty() {
+                return Verdict::fail(format!("{fmt}: failed run wrote {} bytes to stdout (partial report?)", o.stdout.len()));
+            }
+            if out_path.exists() {
+                return Verdict::fail(format!("{fmt}: failed run left an --output file"));
+            }
+            let e = o.stderr_s();
+            if !uncovered.iter().any(|(k, d)| e.contains(k.as_str()) && e.contains(d.as_str())) {
+                return Verdict::fail(format!("{fmt}: error does not name an uncovered security and date {uncovered:?}: {e}"));
+            }
+        }
+    }
+    match mcp_one("calculate_report", serde_json::json!({"transactions": dsl})) {
+        Err(e) => Verdict::fail(e),
+        Ok(Ok(text)) => {
+            if !covered {
+                return Verdict::fail(format!("MCP calculate_report returned a result for an uncovered ledger: {}", text.chars().take(200).collect::<String>()));
+            }
+            Verdict::Pass
+        }
+        Ok(Err(msg)) => {
+            if covered {
+                return Verdict::fail(format!("MCP calculate_report refused a covered ledger: {msg}"));
+            }
+            if !uncovered.iter().any(|(k, d)| msg.contains(k.as_str()) && msg.contains(d.as_str())) {
+                return Verdict::fail(format!("MCP error does not name an uncovered security and date {uncovered:?}: {msg}"));
+            }
+            Verdict::Pass
+        }
+    }
+}
+
+fn strat_c05_front(t: Tier) -> BoxedStrategy<crate::props::c05::Case> {
+    (lgen::ledger_strategy(embedded_cfg(t)), prop_oneof![1 => Just(0u8), 3 => 1u8..7], any::<u16>()).prop_map(|(base, mutation, idx)| crate::props::c05::Case { base, mutation, idx }).boxed()
+}
+
+pub fn c05_front(ctx: &Ctx) -> bool {
+    ctx.shrink_iters.store(60, std::sync::atomic::Ordering::Relaxed);
+    ctx.run_prop("front_ends", RULE_C05_FRONT, ctx.cases(6, 600), strat_c05_front, check_c05_front)
+}
+
+// ----- C06: several input files vs one -----
+
+const RULE_C06_CLI: &str = "process level: the lines of an accepted ledger are shuffled and distributed over 2-4 real files; `cgt-tool report a b c --format json` must equal `cgt-tool report all.cgt --format json` minus the echoed transactions (known finding F17 aside); non-trivial = a file boundary falls inside a day; distinct by DSL hash";
+
+pub fn check_c06_cli(c: &crate::props::c06::Case, obs: &mut Obs) -> Verdict {
+    if lgen::has_excluded_placement(&c.base.ledger) {
+        obs.excluded += 1;
+        return Verdict::Pass;
+    }
+    let v = crate::props::c06::build_variant(c);
+    let all = crate::led::to_dsl(&c.base.ledger) + "\n";
+    obs.hash = crate::led::hash_str(&format!("{all}#{:?}", v.file_texts));
+    obs.nontrivial = v.file_texts.len() > 1;
+    if obs.sample.is_none() {
+        obs.sample = Some(serde_json::json!({"files": v.file_texts}));
+    }
+    let sc = Scratch::new("c06");
+    let one = sc.write("all.cgt", &all).to_string_lossy().to_string();
+    let mut names = vec![];
+    for (i, t) in v.file_texts.iter().enumerate() {
+        names.push(sc.write(&format!("part{i}.cgt"), t).to_string_lossy().to_string());
+    }
+    let a = proc::run_cli(&sc, &["report", &one, "--format", "json"]);
+    let mut args = vec!["report"];
+    for n in &names {
+        args.push(n);
+    }
+    args.extend(["--format", "json"]);
+    let b = proc::run_cli(&sc, &args);
+    if a.ok() != b.ok() {
+        return Verdict::fail(format!("one file: {} but {} files: {}", a.describe(), names.len(), b.describe()));
+    }
+    if !a.ok() {
+        obs.class("both_rejected");
+        return Verdict::Pass;
+    }
+    match (json_minus_tx(&a), json_minus_tx(&b)) {
+        (Ok(x), Ok(y)) => {
+            if x == y {
+                return Verdict::Pass;
+            }
+            // attribute to F17 only through the library-level comparison (full precision)
+            let parsed = match cgt_core::parser::parse_file(&v.file_texts.join("\n")) {
+                Ok(p) => crate::led::from_core(&p),
+                Err(e) => return Verdict::fail(format!("joined files do not parse: {e}")),
+            };
+            let cfg = cgt_core::Config::embedded().unwrap_or_default();
+            let fx = crate::props::c15::fx();
+            if let (crate::tool::Outcome::Ok(ra), crate::tool::Outcome::Ok(rb)) = (crate::tool::calc_with(&c.base.ledger, None, Some(fx), &cfg), crate::tool::calc_with(&parsed, None, Some(fx), &cfg)) {
+                match crate::tool::equivalent_or_f17(&ra, &c.base.ledger, &rb, &parsed, obs) {
+                    crate::tool::Equiv::F17 => return crate::tool::f17_verdict(),
+                    crate::tool::Equiv::Same => {
+                        // only pence-level rounding of figures that differ below tolerance
+                        obs.class("json_differs_only_by_rounding_of_tolerance_level_differences");
+                        return Verdict::Pass;
+                    }
+                    crate::tool::Equiv::Different(e) => return Verdict::fail(format!("report depends on the distribution of lines over files: {e}\n{:?}", v.file_texts)),
+                }
+            }
+            Verdict::fail(format!("report depends on the distribution of lines over files\n{:?}", v.file_texts))
+        }
+        (Err(e), _) | (_, Err(e)) => Verdict::fail(e),
+    }
+}
+
+fn strat_c06_cli(t: Tier) -> BoxedStrategy<crate::props::c06::Case> {
+    (
+        lgen::ledger_strategy(embedded_cfg(t)),
+        proptest::collection::vec(any::<u16>(), 48),
+        proptest::collection::vec(any::<u8>(), 48),
+        2u8..=4,
+        any::<bool>(),
+    )
+        .prop_map(|(base, perm, files, nfiles, trailing_newline)| crate::props::c06::Case { base, perm, files, nfiles, fill_idx: 0, fill_n: 1, fill_salt: 0, fill_pos: vec![0, 0, 0], trailing_newline })
+        .boxed()
+}
+
+pub fn c06_cli(ctx: &Ctx) -> bool {
+    ctx.shrink_iters.store(100, std::sync::atomic::Ordering::Relaxed);
+    ctx.run_prop("cli_several_files", RULE_C06_CLI, ctx.cases(8, 600), strat_c06_cli, check_c06_cli)
+}
+
+// ----- C07 / C04: --year through the CLI, exemption override files, explain_matching's own year rule -----
+
+const RULE_C07_CLI: &str = "process level: a ledger with a sale forced onto 5 or 6 April; `cgt-tool report --year Y --format json` for the years around it must equal the library's single-year report; a config.toml override (in the working directory or under $HOME/.config/cgt-tool) must replace/add exactly the configured exemption; MCP explain_matching (which derives the tax year on its own) must explain the boundary-day disposal; non-trivial = every case; distinct by DSL hash";
+
+pub fn check_c07_cli(c: &FrontCase, obs: &mut Obs) -> Verdict {
+    use chrono::Datelike;
+    let mut ledger = c.gl.ledger.clone();
+    if lgen::has_excluded_placement(&ledger) {
+        obs.excluded += 1;
+        return Verdict::Pass;
+    }
+    // force a boundary-day sale of a fresh security
+    let year = 2016 + (c.sel % 8) as i32;
+    let day = if c.sel % 2 == 0 { 5 } else { 6 };
+    let bdate = crate::led::d(year, 4, day);
+    ledger.push(Tx::buy(crate::led::d(year - 1, 1, 10), "EDGE", 10.into(), 3.into(), 0.into()));
+    ledger.push(Tx::sell(bdate, "EDGE", 4.into(), 5.into(), 1.into()));
+    let dsl = crate::led::to_dsl(&ledger) + "\n";
+    obs.hash = crate::led::hash_str(&dsl);
+    obs.nontrivial = true;
+    obs.class(&format!("sale_on_{day}_April"));
+    if obs.sample.is_none() {
+        obs.sample = Some(serde_json::json!({"boundary_sale": bdate.to_string(), "lines": ledger.len()}));
+    }
+    let fx = crate::props::c15::fx();
+    let expect_year = if day == 5 { year - 1 } else { year };
+    let sc = Scratch::new("c07");
+    let input = sc.write("in.cgt", &dsl).to_string_lossy().to_string();
+    // override file: replace one year, add one the embedded table lacks
+    let custom = 4321 + (c.sel % 100) as i64;
+    let use_home = c.sel % 3 == 0;
+    let toml = format!("[exemptions]\n\"{expect_year}\" = {custom}\n\"2031\" = 777\n");
+    if use_home {
+        sc.write("home/.config/cgt-tool/config.toml", &toml);
+    } else {
+        sc.write("config.toml", &toml);
+    }
+    obs.class(if use_home { "override_in_home" } else { "override_in_cwd" });
+    let mut cfg = cgt_core::Config::embedded().unwrap_or_default();
+    cfg.exemptions.insert(expect_year as u16, custom.into());
+    cfg.exemptions.insert(2031, 777.into());
+    for y in [expect_year - 1, expect_year, expect_year + 1] {
+        let ys = y.to_string();
+        let o = proc::run_cli(&sc, &["report", &input, "--year", &ys, "--format", "json"]);
+        let lib = crate::tool::calc_with(&ledger, Some(y), Some(fx), &cfg);
+        match lib {
+            crate::tool::Outcome::Ok(r) => {
+                if !o.ok() {
+                    return Verdict::fail(format!("--year {y}: CLI failed but the library succeeds: {}", o.describe()));
+                }
+                let got = match json_minus_tx(&o) {
+                    Ok(g) => g,
+                    Err(e) => return Verdict::fail(e),
+                };
+                let want = serde_json::json!({"tax_years": r.tax_years, "holdings": r.holdings});
+                if got != want {
+                    return Verdict::fail(format!("--year {y}: CLI report differs from the library's single-year report\n--- cli ---\n{got}\n--- library ---\n{want}"));
+                }
+                let has_edge = got.pointer("/tax_years/0/disposals").and_then(|d| d.as_array()).map(|d| d.iter().any(|x| x.get("ticker").and_then(|t| t.as_str()) == Some("EDGE"))).unwrap_or(false);
+                if has_edge != (y == expect_year) {
+                    return Verdict::fail(format!("--year {y}: boundary sale of {bdate} {} this report (belongs to {expect_year})", if has_edge { "appears in" } else { "is missing from" }));
+                }
+                if y == expect_year && got.pointer("/tax_years/0/exempt_amount").and_then(|x| x.as_str()).and_then(|x| x.parse::<f64>().ok()) != Some(custom as f64) {
+                    return Verdict::fail(format!("--year {y}: exemption {:?}, the override file configures {custom}", got.pointer("/tax_years/0/exempt_amount")));
+                }
+            }
+            crate::tool::Outcome::Err(_) => {
+                if o.ok() {
+                    return Verdict::fail(format!("--year {y}: CLI succeeded but the library fails"));
+                }
+            }
+            crate::tool::Outcome::Panic(p) => return Verdict::fail(format!("calculate panicked: {}", p.msg)),
+        }
+    }
+    // MCP explain_matching derives the tax year itself
+    let _ = bdate.year();
+    match mcp_one("explain_matching", serde_json::json!({"transactions": dsl, "disposal_date": bdate.to_string(), "ticker": "edge"})) {
+        Err(e) => Verdict::fail(e),
+        Ok(Err(msg)) => {
+            // the MCP server runs in its own scratch dir with the embedded table: the year is configured
+            Verdict::fail(format!("explain_matching cannot explain the disposal of {bdate}: {}", msg.chars().take(300).collect::<String>()))
+        }
+        Ok(Ok(text)) => {
+            let v: Value = serde_json::from_str(&text).unwrap_or(Value::Null);
+            if v.get("disposal_date").and_then(|x| x.as_str()) != Some(bdate.to_string().as_str()) || v.get("quantity").and_then(|x| x.as_str()) != Some("4") {
+                return Verdict::fail(format!("explain_matching answer for {bdate}: {text}"));
+            }
+            Verdict::Pass
+        }
+    }
+}
+
+pub fn c07_cli(ctx: &Ctx) -> bool {
+    ctx.shrink_iters.store(60, std::sync::atomic::Ordering::Relaxed);
+    ctx.run_prop("cli_year_and_overrides", RULE_C07_CLI, ctx.cases(4, 400), strat_front, check_c07_cli)
+}
+
+// ----- C14: CLI parse output through the MCP tools -----
+
+const RULE_C14_MCP: &str = "process level: `cgt-tool parse` output (JSON) fed to MCP parse_transactions, convert_to_dsl and calculate_report (JSON sniffing) must agree with the CLI on the DSL: same transactions, DSL that parses back to them, same report; non-trivial = ledger has a disposal; distinct by DSL hash";
+
+pub fn check_c14_mcp(c: &FrontCase, obs: &mut Obs) -> Verdict {
+    use std::time::Duration;
+    let ledger = &c.gl.ledger;
+    if lgen::has_excluded_placement(ledger) || ledger.is_empty() {
+        obs.excluded += 1;
+        return Verdict::Pass;
+    }
+    let dsl = crate::led::to_dsl(ledger) + "\n";
+    obs.hash = crate::led::hash_str(&dsl);
+    obs.nontrivial = ledger.iter().any(|t| matches!(t.op, Op::Sell { .. }));
+    if obs.sample.is_none() {
+        obs.sample = Some(crate::tool::sample_of(ledger));
+    }
+    let sc = Scratch::new("c14");
+    let input = sc.write("in.cgt", &dsl).to_string_lossy().to_string();
+    let parsed = proc::run_cli(&sc, &["parse", &input]);
+    if !parsed.ok() {
+        return Verdict::fail(format!("cgt-tool parse failed on a generated ledger: {}", parsed.describe()));
+    }
+    let json_text = parsed.stdout_s();
+    let cli_json: Value = match serde_json::from_str(&json_text) {
+        Ok(v) => v,
+        Err(e) => return Verdict::fail(format!("parse output is not JSON: {e}")),
+    };
+    let report = proc::run_cli(&sc, &["report", &input, "--format", "json"]);
+    let mut m = crate::proc::Mcp::start(false);
+    if !m.handshake() {
+        proc::inconclusive("MCP handshake failed");
+    }
+    let mut ask = |id: i64, tool: &str, args: Value| -> Result<Result<String, String>, Verdict> {
+        m.send(&crate::proc::tool_call(id, tool, args));
+        match m.recv(Duration::from_secs(60)) {
+            Some(r) => Ok(crate::proc::tool_text(&r)),
+            None => Err(Verdict::fail(format!("{tool}: not answered"))),
+        }
+    };
+    // parse_transactions on the CLI's JSON
+    match ask(1, "parse_transactions", serde_json::json!({"transactions": json_text})) {
+        Err(v) => return v,
+        Ok(Err(e)) => return Verdict::fail(format!("MCP parse_transactions rejects the CLI's own JSON: {e}")),
+        Ok(Ok(t)) => {
+            if serde_json::from_str::<Value>(&t).ok().as_ref() != Some(&cli_json) {
+                return Verdict::fail("MCP parse_transactions(JSON from cgt-tool parse) differs from that JSON".to_string());
+            }
+        }
+    }
+    // convert_to_dsl on the CLI's JSON parses back (via the CLI) to the same JSON
+    match ask(2, "convert_to_dsl", serde_json::json!({"transactions": json_text})) {
+        Err(v) => return v,
+        Ok(Err(e)) => return Verdict::fail(format!("MCP convert_to_dsl rejects the CLI's own JSON: {e}")),
+        Ok(Ok(t)) => {
+            let back = sc.write("back.cgt", &(t + "\n")).to_string_lossy().to_string();
+            let again = proc::run_cli(&sc, &["parse", &back]);
+            if serde_json::from_slice::<Value>(&again.stdout).ok().as_ref() != Some(&cli_json) {
+                return Verdict::fail(format!("DSL written by convert_to_dsl parses to different transactions: {}", again.describe()));
+            }
+        }
+    }
+    // calculate_report with JSON input vs CLI report of the DSL
+    let r = ask(3, "calculate_report", serde_json::json!({"transactions": json_text}));
+    let (code, _) = m.close(Duration::from_secs(20));
+    if code != Some(0) {
+        return Verdict::fail(format!("MCP server exit status {code:?}"));
+    }
+    match r {
+        Err(v) => v,
+        Ok(Err(e)) => {
+            if report.ok() {
+                return Verdict::fail(format!("calculate_report(JSON) fails but cgt-tool report succeeds: {e}"));
+            }
+            Verdict::Pass
+        }
+        Ok(Ok(t)) => {
+            if !report.ok() {
+                return Verdict::fail(format!("calculate_report(JSON) succeeds but cgt-tool report fails: {}", report.describe()));
+            }
+            let got: Value = serde_json::from_str(&t).unwrap_or(Value::Null);
+            match json_minus_tx(&report) {
+                Ok(want) if want == got => Verdict::Pass,
+                Ok(_) => Verdict::fail(format!("calculate_report on the JSON rendering differs from cgt-tool report on the DSL\n{dsl}")),
+                Err(e) => Verdict::fail(e),
+            }
+        }
+    }
+}
+
+pub fn c14_mcp(ctx: &Ctx) -> bool {
+    ctx.shrink_iters.store(60, std::sync::atomic::Ordering::Relaxed);
+    ctx.run_prop("cli_json_through_mcp", RULE_C14_MCP, ctx.cases(4, 400), strat_front, check_c14_mcp)
 }
